@@ -45,7 +45,7 @@ APP_ACTIONS = {
     'send_binary': lambda ws: ws.send_binary(b'\x00\x01'),
     'send_ping': lambda ws: ws.send_ping(b'k'),
     'send_pong': lambda ws: ws.send_pong(b'u'),
-    'close': lambda ws: ws.close(),
+    'close': lambda ws: ws.close(1000, 'goodbye'),      # explicit arguments: the defaults are not part of any property
     'close-3001': lambda ws: ws.close(3001, 'app'),
     'send_text!fail': lambda ws: (W.current().fail_sendall.append(OSError(32, 'Broken pipe (injected)')), ws.send_text('hi')),
 }
